@@ -34,6 +34,7 @@ ENC = {
     "utf16": lambda x: b"".join(bytes([c, 0]) for c in x),
     "xmldec": lambda x: b"".join(b"&#%d;" % c for c in x),
     "xmlhex": lambda x: b"".join(b"&#x%02x;" % c for c in x),
+    "xmlhexU": lambda x: b"".join(b"&#X%02X;" % c for c in x),
     "unescape": lambda x: b"unescape('" + b"".join(b"%%%02X" % c for c in x) + b"')",
     "concat": lambda x: b"'" + x[: len(x) // 2] + b"' + \"" + x[len(x) // 2:] + b'"',
     "reverse": lambda x: b"reverse('" + x[::-1] + b"')",
@@ -96,6 +97,12 @@ def proposals(tier: str, rng: random.Random) -> list[tuple]:
     long_payload = (b"get http://evil-site.net/malware.exe now; " * 14)[:560]
     out.append((("psbytes",), long_payload))
     out.append((("b64", "psbytes"), long_payload[:390]))
+    # a byte array directly under the layer kinds whose text stays short, and above a few others (TLC re-encodes these:
+    # kept small because every layer multiplies the length)
+    for k in ("FromBase64String", "FromHexString", "atob", "Base64Decode", "b64", "hex", "unescape"):
+        out.append((("psbytes", k), long_payload[:505]))
+    for k in ("atob", "concat", "StrReverse"):
+        out.append(((k, "psbytes"), long_payload[:130]))
     return out
 
 
